@@ -230,6 +230,12 @@ func monitor(c fw.Case, out []string) []string {
 			}
 			g, ok1 = decGVal(toks[4])
 			o, ok2 = decOpts(toks[5])
+		case "value.e2e":
+			if len(toks) != 3 {
+				continue
+			}
+			g, ok1 = decGVal(toks[1])
+			o, ok2 = decOpts(toks[2])
 		default:
 			continue
 		}
@@ -259,6 +265,32 @@ func monitor(c fw.Case, out []string) []string {
 			if m := checkJSON(g, o, out[i]); m != "" {
 				fails = append(fails, fmt.Sprintf("json@%d: %s", i, m))
 			}
+		case "value.e2e":
+			// Set -> stored -> validated by the plugin -> committed -> Get
+			if !strings.HasPrefix(out[i], "ok ") {
+				fails = append(fails, fmt.Sprintf("roundtrip@%d: a Set of a supported value is not accepted end to end: %s", i, out[i]))
+				continue
+			}
+			f := e2eFields(out[i])
+			if want := encGVal(canon(g)); f["proto"] != want {
+				fails = append(fails, fmt.Sprintf("roundtrip@%d: Get (PROTO) after Set returns %s, the value set is %s", i, f["proto"], want))
+			}
+			for _, k := range []string{"json", "plugin"} {
+				if f[k] == "float" {
+					continue // text of a Go float: checked on the value.rjson lines
+				}
+				ans := "ok " + f[k]
+				if f[k] == "none" || f[k] == "absent" {
+					ans = f[k]
+				}
+				if m := checkJSON(g, o, ans); m != "" {
+					what := "the document Get (JSON) returns"
+					if k == "plugin" {
+						what = "the document the model plugin validated"
+					}
+					fails = append(fails, fmt.Sprintf("json@%d: %s: %s", i, what, m))
+				}
+			}
 		}
 	}
 	return fails
@@ -284,6 +316,10 @@ func failing(c fw.Case, msg string) (rule string, op string, stored bool, g gval
 	op = toks[0]
 	var ok1, ok2 bool
 	switch len(toks) {
+	case 3: // value.e2e: the value went through the stores
+		stored = true
+		g, ok1 = decGVal(toks[1])
+		o, ok2 = decOpts(toks[2])
 	case 4:
 		g, ok1 = decGVal(toks[2])
 		o, ok2 = decOpts(toks[3])
@@ -354,6 +390,19 @@ func sigFloatNaNPanic(c fw.Case, out []string, msg string) bool {
 	return ok && !g.ll && rule == "panic" && g.s.k == kFloat && isNaN(g.s.bits)
 }
 
+func sigLeafListFloatInfWedge(c fw.Case, out []string, msg string) bool {
+	rule, op, _, g, _, ok := failing(c, msg)
+	if !ok || !g.ll || rule != "roundtrip" || op != "value.e2e" || !strings.Contains(msg, "wedged") {
+		return false
+	}
+	for _, e := range g.es {
+		if e.k == kFloat && !finite(e.bits) && !isNaN(e.bits) {
+			return true
+		}
+	}
+	return false
+}
+
 func sigDecimalPrecisionPanic(c fw.Case, out []string, msg string) bool {
 	rule, op, _, g, _, ok := failing(c, msg)
 	return ok && !g.ll && rule == "panic" && (op == "value.jsonof" || op == "value.rjson") && g.s.k == kDec && g.s.prec%256 >= 64
@@ -385,6 +434,7 @@ var Prop = &fw.Prop{
 		"emptyBytesNull":           sigEmptyBytesNull,
 		"floatNaNPanic":            sigFloatNaNPanic,
 		"decimalPrecisionPanic":    sigDecimalPrecisionPanic,
+		"leafListFloatInfWedge":    sigLeafListFloatInfWedge,
 	},
 }
 
